@@ -142,6 +142,16 @@ def step (s : DState) (toks : List String) : DState × String :=
   -- cache equals generation from scratch, for every pair of proxies
   | ["case", _, _, _] => (s, "ok")
   | ["pair", _, _] => (s, "eq")
+  -- stream `writers`: the spec side of the writer discipline (theorem `never_stale`): after any sequence of
+  -- real request / push / config-dump writers and accepted changes, a reader with the current snapshot gets
+  -- from the shared cache what generation from scratch yields
+  | ["case", _, _] => (s, "ok")
+  | ["connect", _, _] => (s, "ok")
+  | ["request", _, _] => (s, "ok")
+  | ["change", _, _] => (s, "ok")
+  | ["push", _] => (s, "ok")
+  | ["dump", _] => (s, "ok")
+  | ["check", _] => (s, "eq")
   | "case" :: _ => (DState.init, "bad-op")
   | _ => bad s
 
